@@ -112,7 +112,7 @@ def check_funnel(ctx, tu):
             vid = root_var_id(op)
             vd = f.var_decls().get(vid) if vid else None
             how = 'object %s' % pstr(op)
-            if vd and vd.get('init') and op[-1:] == ('*',):
+            if vd and vd.get('init') and (op[-1:] == ('*',) or len(op) == 1):     # (*list)(args...) or list->operator()(args...)
                 init = f.strip_all_casts(vd['init'])
                 if f.is_call(init) and (f.callee_key(init) or '').endswith('::doFindCallableList'):
                     a = f.call_args(init)
